@@ -53,6 +53,12 @@ def run(rep, tier):
                     for o in (16, 32, 40):
                         cases.append((js, cname, layout, "case_kmac", (a, kl, 9, cl, o),
                                       "kmac%s key %d custom %d output %d" % (sfx, kl, cl, o), "ascon_kmac" + sfx))
+    # structural, all lengths: no size_t length loses its upper bits on the way to a bound or an address
+    from . import widths
+    rep.rule("C04.D2", "length arithmetic keeps the full width of size_t (no 32-bit mask or unguarded narrowing before control/addressing)")
+    for js, cname, layout, maxs, units in prep:
+        widths.rule(rep, "C04.D2", modes.load_module(js), cname, files=("/src/mac/", "/src/core/"))
+    widths.control(rep, "C04.D2")
     for d in modecheck.run_cases("C04", rid, tier, cases, None):
         rep.merge(d)
     rep.floor_discharged(rid, int(0.9 * len(cases)))
